@@ -50,7 +50,14 @@ W_REUSE = {"tokens": [1], "seed": 1, "jobs": [
     {"cls": "VTask", "name": "r0", "embed": [], "toks": [[0, 1]], "code": 0, "marker": False, "copy_of": 0, "adopt": None, "reuse": True}],
     "schedule": [["submit", 0], ["deliver", [[0, "lockin"]]], ["deliver", [[0, "lockout"]]], ["deliver", [[0, "proc"]]],
                  ["deliver", [[0, "lockout"]]], ["deliver", [[0, "doneh"]]], ["submit", 1]]}
-WITNESSES = [W_RESUBMIT, W_OVERWRITE, W_ABORT, W_ADOPT_FAIL, W_FALSY, W_REUSE]
+# copy_dependencies on the task that is submitted: are its own parameters still searched
+W_COPYDEP = {"tokens": [], "seed": 1, "jobs": [
+    {"cls": "VTask", "name": "c0", "embed": [], "toks": [], "code": 0, "marker": False, "copy_of": None, "adopt": None},
+    {"cls": "VTask", "name": "c1", "embed": [], "toks": [], "code": 0, "marker": False, "copy_of": None, "adopt": None},
+    {"cls": "VTask", "name": "c2", "embed": [[0, "direct"], [1, "copydep"]], "toks": [], "code": 0, "marker": False,
+     "copy_of": None, "adopt": None}],
+    "schedule": [["submit", 0], ["submit", 1], ["submit", 2]]}
+WITNESSES = [W_RESUBMIT, W_OVERWRITE, W_ABORT, W_ADOPT_FAIL, W_FALSY, W_REUSE, W_COPYDEP]
 
 
 def gen_workload(rng, profile="c06"):
@@ -219,6 +226,8 @@ def oracle_rest(w, trace, report, pid="C06"):
     # the refusal at submission concerns exactly the jobs that can never start
     for k in (trace.get("refused") or {}):
         j = int(k)
+        if str(trace["refused"][k]).startswith("at construction"):
+            continue
         if not oversubscribed(w["tokens"], w["jobs"][j]["toks"]):
             report(f"{pid}:submission-refused-although-requests-fit",
                    f"submit() refused job {j} ({trace['refused'][k]}): its requests {w['jobs'][j]['toks']} fit the totals {w['tokens']}")
@@ -277,6 +286,18 @@ def falsy_task(trace, k):
     """submission k is a task object whose truth value is False"""
     f = trace.get("falsy") or {}
     return bool(f.get(k, f.get(str(k), False)))
+
+
+def hidden_by(spec):
+    """the job uses one of the constructions that put a task mark over parameters of another origin"""
+    hows = {h.split("_obj")[0] for (_k, h) in spec["embed"]}
+    if "late" in hows:
+        return "task-not-submitted-yet"
+    if hows & {"copydep", "copydep_in"}:
+        return "hidden-by-copied-mark"
+    if "out_holder" in hows:
+        return "hidden-by-output-mark"
+    return None
 
 
 def upstream(w, trace, j):
@@ -390,7 +411,9 @@ def oracle_c04(w, trace, report):
                              if resolve(trace, kk) == k)
                 collected = ["job", k] in (trace["deps"][j] or [])
                 key = "C04:launched-before-upstream-done:" + ("not-collected" if not collected else "collected")
-                if not collected and any(falsy_task(trace, kk) for (kk, _h) in w["jobs"][j]["embed"] if resolve(trace, kk) == k):
+                if not collected and hidden_by(w["jobs"][j]):
+                    key += ":" + hidden_by(w["jobs"][j])
+                elif not collected and any(falsy_task(trace, kk) for (kk, _h) in w["jobs"][j]["embed"] if resolve(trace, kk) == k):
                     key += ":falsy-task"
                 elif dupobj and not collected:
                     key += ":duplicate-object"
@@ -417,7 +440,8 @@ def oracle_c04_deps(w, trace, report):
                          if resolve(trace, kk) in missing)
             falsy = any(falsy_task(trace, kk) for (kk, _h) in spec["embed"] if resolve(trace, kk) in missing)
             if missing:
-                key = "C04:dependency-missing:" + ("falsy-task" if falsy else "duplicate-object" if dupobj else "+".join(hows))
+                key = "C04:dependency-missing:" + (hidden_by(spec) or ("falsy-task" if falsy else "duplicate-object" if dupobj
+                                                                      else "+".join(hows)))
                 report(key, f"job {j}: upstream {missing} (embedded as {hows}) not among the registered dependencies {got}")
             if extra:
                 viadup = any(h.endswith("_obj") and trace["dup"][kk] is not None for (kk, h) in spec["embed"])
@@ -438,7 +462,7 @@ def g_value(v):
     raise ValueError(v)
 
 
-def g_dcase(heapdump, observed, literal=False):
+def g_dcase(heapdump, observed, literal=False, copyfix=False):
     nodes = []
     for n in heapdump["nodes"]:
         nodes.append(f"{{| n_fields := {glist(g_value(v) for v in n['fields'])}; n_pre := {glist(map(str, n['pre']))}; "
@@ -446,7 +470,8 @@ def g_dcase(heapdump, observed, literal=False):
                      f"n_jobof := {gopt(n['jobof'], str)}; n_loaded := {gbool(n['loaded'])}; n_sub := None |}}")
     return (f"{{| d_heap := {glist(nodes)}; d_root := 0; d_explicit := {glist(map(str, heapdump['explicit']))}; "
             f"d_observed := {glist(map(str, observed))}; "
-            f"d_falsy := {glist(str(i) for i, n in enumerate(heapdump['nodes']) if n.get('falsy'))}; d_literal := {gbool(literal)} |}}")
+            f"d_falsy := {glist(str(i) for i, n in enumerate(heapdump['nodes']) if n.get('falsy'))}; d_literal := {gbool(literal)}; "
+            f"d_copied := {glist(str(i) for i, n in enumerate(heapdump['nodes']) if n.get('copied'))}; d_copyfix := {gbool(copyfix)} |}}")
 
 
 DEPS_HEADER = ("From Coq Require Import List Bool.\nFrom XV Require Import model.Deps corr.DepsCorr.\n"
@@ -618,7 +643,8 @@ def g_adopt(a):
 
 def g_case(w, trace, fx):
     ids = idents(w)
-    refused = {str(k) for k in (trace.get("refused") or {})}
+    # (refused by Scheduler.submit; a configuration refused at construction never reached the scheduler)
+    refused = {str(k) for k, why in (trace.get("refused") or {}).items() if not str(why).startswith("at construction")}
     jobs = []
     for j, spec in enumerate(w["jobs"]):
         deps = trace["deps"][j] or []
@@ -709,6 +735,9 @@ def run_sched_check(c, profile, oracles, n_quick, n_thorough, golden_name, rule,
     stale = bool(sn5 and sn5["jobs"][1] is not None and sn5["jobs"][1]["result"] is None and sn5["jobs"][1]["state"] == "WAITING"
                  and not sn5["pending"])
     c.extra["dependency_status_kept_on_reuse"] = stale
+    # are the parameters of a configuration whose mark was copied searched (W_COPYDEP: c0 collected)
+    copyfix = ["job", 0] in (traces[6]["deps"][2] or [])
+    c.extra["parameters_searched_under_a_copied_mark"] = copyfix
     c.extra["repairs_present_in_implementation"] = dict(resubmit_registers=fx[0], ready_only_when_notstarted=fx[1],
                                                         aborted_start_keeps_ready=fx[2],
                                                         failed_dependency_spares_running_job=fx[3])
@@ -799,7 +828,7 @@ def run_sched_check(c, profile, oracles, n_quick, n_thorough, golden_name, rule,
                 obs = sorted({d[1] for d in t["deps"][j] if d[0] == "job"})
                 dcases.append((hd, obs, w, j))
                 c.count(f"heap-nodes={min(len(hd['nodes']), 12)}")
-        badd = c.corr_shards("deps", DEPS_HEADER, dcases, lambda p: g_dcase(p[0], p[1], literal), "check_deps", shard=400)
+        badd = c.corr_shards("deps", DEPS_HEADER, dcases, lambda p: g_dcase(p[0], p[1], literal, copyfix), "check_deps", shard=400)
         c.extra["disagreeing_dependency_sets"] = [dict(job=dcases[i][3], observed=dcases[i][1], heap=dcases[i][0],
                                                        workload=dcases[i][2]) for i in badd[:3]]
     c.extra["disagreeing_cases"] = [sample(*render[i]) for i in bad[:3]]
